@@ -708,6 +708,41 @@ def compare_runs(base_test, base_ob, der_test, der_ob, order_preserved):
     return None
 
 
+def chain_oracle(test, ob):
+    """first sentence of the property, directly on one observed run: the first case starts
+    from the base fixtures; after a variant or skipped case the next case starts from the
+    same state; after a (passing) non-variant case the next case starts from exactly the
+    inputs that case ran the function with and the resource the mock API materialised (the
+    resource it ran against when the function made no API call)."""
+    tr = ob["trace"]
+    if not tr:
+        return None
+    base = (test.get("inputs") or None, test.get("resource"))
+    first = (tr[0]["start_inputs"], tr[0]["start_resource"])
+    if skey(list(first)) != skey(list(base)):
+        return ("chain: first case does not start from the base fixtures", 0, first, base)
+    for k in range(len(tr) - 1):
+        c = test["cases"][tr[k]["idx"]]
+        got = (tr[k + 1]["start_inputs"], tr[k + 1]["start_resource"])
+        if c.get("skip") or c.get("variant"):
+            want = (tr[k]["start_inputs"], tr[k]["start_resource"])
+            who = "skipped" if c.get("skip") else "variant"
+            if skey(list(got)) != skey(list(want)):
+                part = "inputs" if skey(got[0]) != skey(want[0]) else "resource"
+                return (f"chain: {who} case changed the {part} the next case starts from", k, got, want)
+            continue
+        if tr[k]["api"] is None or tr[k]["fut"] is None:
+            continue            # a non-variant case that could not run: the runner stops (not judged here)
+        api = tr[k]["api"]
+        want = (tr[k]["fut"]["inputs"],
+                canon(api.materialized) if api._api_called else tr[k]["api_resource"])
+        if skey(got[0]) != skey(want[0]):
+            return ("chain: next case does not start from the inputs the previous non-variant case ran with", k, got, want)
+        if skey(got[1]) != skey(want[1]):
+            return ("chain: next case does not start from the resource the previous non-variant case produced", k, got, want)
+    return None
+
+
 def derive(test, rng, fn):
     """derived tests: (name, derived test, order_preserved)"""
     cases = test["cases"]
@@ -929,6 +964,32 @@ async def check_test(ctx: Ctx, env: Env, fn, test, rng, cases_out, terms_out, do
         ctx.fail(Failure(signature="second run of the same FunctionTest differs",
                          what="running the same prepared FunctionTest twice gives different results",
                          case=test, observed=ob2["results"], expected=ob["results"]))
+    bad = chain_oracle(test, ob)
+    if bad:
+        sig, k, got, want = bad
+        upto = [c["label"] for c in test["cases"][:k + 2]]
+
+        async def still(labels):
+            t = dict(test, cases=[c for c in test["cases"] if c["label"] in labels])
+            if not t["cases"]:
+                return False
+            b = chain_oracle(t, await env.run(await env.prepare(t)))
+            return bool(b) and b[0] == sig
+        keep = upto
+        i = 0
+        while i < len(keep):
+            cand = keep[:i] + keep[i + 1:]
+            try:
+                ok = await still(set(cand))
+            except Exception:
+                ok = False
+            if ok:
+                keep = cand
+            else:
+                i += 1
+        ctx.fail(Failure(signature=sig, what=f"{sig} (after case index {k})",
+                         case={"test": dict(test, cases=[c for c in test["cases"] if c["label"] in set(keep)])},
+                         observed=list(got), expected=list(want)))
     term, conflicts = to_coq(test, ob)
     cases_out.append({"test": test, "how": "base"})
     terms_out.append(term)
